@@ -6,7 +6,14 @@ Engine B, two parts:
          the str-level pair parse_multiline/format_multiline, and License.from_str(License.to_str());
   doc    header variants x every sequence of 0..3 paragraphs from a pool of 35 (30 Files paragraphs = 3 pattern
          lists x 2 copyright texts x 5 licences, and 5 stand-alone licences), built through the public API,
-         dumped, re-parsed with strict=True, compared field by field with what was put in, and dumped again.
+         dumped, re-parsed with strict=True, compared field by field with what was put in, and dumped again;
+  long   the same document oracle on long and awkward values: Files lists whose joined length takes every value from
+         11 to 128 characters (k = 1..12 copies of a 9-character hyphenated pattern after a lead-in pattern of 0..8 or 10
+         characters, so that a hyphen, a blank and the middle of a pattern fall on every column up to 130), k = 1..6
+         copies of a path with two hyphens, growing prefixes of a realistic list, single patterns of 73 / 80 / 150
+         characters with and without hyphens, 40 one-character patterns; copyright and licence texts with a
+         200-character line and with 30 lines, a 90-character synopsis; a header with 5 Upstream-Contact entries, a
+         150-character Source and a 30-line licence.
 """
 import itertools
 import logging
@@ -20,7 +27,9 @@ RULE = ("Engine B: states = prefixes of line lists / paragraph sequences generat
         "documents built, dumped, re-parsed and re-dumped.  Non-trivial = in-domain line lists of >= 2 lines with an "
         "empty line, a line starting with a blank or a dot-like line after the first; documents with >= 2 paragraphs "
         "mixing Files and License paragraphs or carrying a licence text with empty/indented/dot-like lines; codec sweep: "
-        "one state / transition / trace per line list built around one swept character")
+        "one state / transition / trace per line list built around one swept character; long documents: one state / "
+        "transition per paragraph appended, one trace per document; non-trivial = the document carries a Files value "
+        "longer than 72 characters, a text line of >= 200 characters, a text of >= 30 lines or >= 5 contacts")
 BUDGET = {"quick": 240, "thorough": 3000}
 
 FORMAT = "https://www.debian.org/doc/packaging-manuals/copyright-format/1.0/"
@@ -33,6 +42,7 @@ def bounds(tier):
                            % (len(sweep_chars()), len(SWEEP_NON_ASCII), [[l.replace("%", "<c>") for l in t] for t in SWEEP_LISTS]),
             "doc_pool": "30 Files paragraphs (3 pattern lists x 2 copyrights x 5 licences, one whose text starts with an empty line) + 5 stand-alone licences",
             "doc_sequences": "0..3 paragraphs",
+            "doc_long": long_bounds(),
             "doc_headers": ("24 header variants (Upstream-Name, Source, Upstream-Contact 0/1/2 entries, License) x "
                             "sequences of 0..1 paragraphs; minimal and full header x sequences of 2..3 paragraphs"
                             if tier == "quick" else "24 header variants x every sequence")}
@@ -53,7 +63,14 @@ def assumptions():
             "License('X ', 'a') reads back as 'X')",
             "copyright texts are given in deb822 continuation form (the Copyright field has no codec)",
             "the expected paragraph order of a built document follows the documented insertion rule: a Files "
-            "paragraph goes directly after the last Files paragraph, a License paragraph goes last"]
+            "paragraph goes directly after the last Files paragraph, a License paragraph goes last",
+            "long values: a Files pattern is any non-empty string without white space (hyphens, slashes, wildcards; "
+            "the format sets no length limit for a pattern, a list, a line or a text), the same pattern may occur "
+            "several times in a list; how the writer lays a long value out (one line or continuation lines) is left "
+            "open - only what the strict re-parse returns and the identity of the second dump are compared",
+            "long documents use the minimal header (and one long header) with the long paragraph alone, after one "
+            "ordinary Files paragraph, or before one stand-alone License paragraph; they are not multiplied with the "
+            "0..3-paragraph sequences"]
 
 
 def _codec_n(tier):
@@ -96,6 +113,173 @@ def doc_pools(seed):
                 for lic in (None, lics[1]):
                     headers.append({"name": name, "source": source, "contact": contact, "license": lic})
     return pool, headers
+
+
+# ------------------------------------------------------------------------------------------------ long values
+
+LONG_GROUPS = ["files-hyphen9", "files-other", "texts", "header"]
+_REALISTIC = ["debian/*", "doc/*.html", "src/lib-core/*.c", "src/lib-core/*.h", "tests/data-files/*",
+              "third-party/zlib-ng/*", "po/*.po"]
+
+
+def _plain_pattern(n):
+    return "d/" + "a" * (n - 2)
+
+
+def _hyphen_pattern(n):
+    return ("abcd-" * (n // 5 + 1))[:n - 1] + "e"
+
+
+def long_files(seed, group):
+    """-> Files pattern lists, canonical (shortest-first) order"""
+    hy = core.rep(seed, ["aaaa-bbbb", "qrst-uvwx", "zlib-ngxx", "core-util"])      # 9 characters, one inner hyphen
+    out = []
+    if group == "files-hyphen9":
+        # lead-in pattern of 0 (none), 1..8 and 10 characters: the copies then start at every column modulo 10 and the
+        # joined lengths are 9, every value from 11 to 128, and 130
+        for k in range(1, 13):
+            for o in (0, 1, 2, 3, 4, 5, 6, 7, 8, 10):
+                out.append((["x" * o] if o else []) + [hy] * k)
+        assert sorted({len(" ".join(f)) for f in out}) == [9] + list(range(11, 129)) + [130]
+    else:
+        for k in range(1, 7):
+            for o in (0, 3, 7, 11, 15, 19):
+                out.append((["x" * o] if o else []) + ["third-party/zlib-ng/*"] * k)
+        for k in range(1, len(_REALISTIC) + 1):
+            out.append(_REALISTIC[:k])
+        for n in (73, 80, 150):
+            for pat in (_plain_pattern(n), _hyphen_pattern(n)):
+                assert len(pat) == n and not pat.endswith("-")
+                out += [[pat], ["*", pat], [pat, "*"]]
+        out.append(list("abcdefghijklmnopqrstuvwxyz0123456789ABCD"))
+    return out
+
+
+def long_texts(seed):
+    """-> (copyright texts, licences [synopsis, text]) with a 200-character line / 30 lines"""
+    a, e = letters(seed)
+    line200 = ("lorem ipsum " + e + " dolor, sit-amet (c) ") * 8
+    line200 = line200[:199] + "z"
+    assert len(line200) == 200
+    cps = ["2020 " + line200[5:],                       # first line of 200 characters
+           "2020 A\n " + line200,                       # continuation line of 200 characters
+           "\n ".join("%d Holder %d %s" % (1990 + i, i, e) for i in range(30))]
+    t30 = []
+    for i in range(30):
+        t30.append("" if i % 7 == 3 else ("  indented %d" % i) if i % 7 == 5 else "line %d of the text %s" % (i, e))
+    lics = [["MIT", line200],
+            ["MIT", "short\n" + line200 + "\n\nend"],
+            ["X", "\n".join(t30)],
+            ["GPL-2+ or LGPL-2.1+ with OpenSSL-exception and Font-exception-2.0 or BSD-3-clause or Expat-" + a * 4,
+             "\n".join(t30[:3])]]
+    # the domain: texts end in a non-empty line (a trailing newline cannot survive splitlines)
+    assert all(l[1].split("\n")[-1].strip() for l in lics) and all(c.split("\n")[-1].strip() for c in cps)
+    return cps, lics
+
+
+def long_headers(seed):
+    a, e = letters(seed)
+    cps, lics = long_texts(seed)
+    contacts = ["A <a@b>", "B " + e, "C <c@d.example>",
+                "Very Long Name Of The " + "Upstream-" * 8 + "Maintainers <list@lists.example.org>", "E <e@f>"]
+    return [{"name": None, "source": None, "contact": contacts, "license": None},
+            {"name": "x", "source": "http://e/" + "long-path/" * 14 + e, "contact": contacts, "license": lics[2]}]
+
+
+def long_bounds():
+    return {"files_lists": {g: len(long_files(0, g)) for g in LONG_GROUPS[:2]},
+            "files_list_joined_length": "9, every value in 11..128, 130 (hyphen9 family: the copies start at every column modulo "
+                                        "10), up to 152 (single long pattern with a neighbour)",
+            "files_contexts": "minimal header; the paragraph alone, after one ordinary Files paragraph, before one License paragraph",
+            "texts": "3 copyright texts (200-character first line, 200-character continuation line, 30 lines) and 4 "
+                     "licences (200-character first / later text line, 30 lines with empty and indented lines, "
+                     "90-character synopsis), the licences in a Files and in a stand-alone License paragraph; same 3 contexts",
+            "headers": "5 Upstream-Contact entries (one of 130 characters) with nothing else, and with Upstream-Name, a "
+                       "150-character Source and a 30-line licence; x (no paragraph, each of the 35 ordinary, each of "
+                       "the 11 long-text paragraphs, 10 long Files lists)"}
+
+
+def long_cases(seed, group):
+    dpool, headers = doc_pools(seed)
+    minimal = headers[0]
+    before, after = dpool[0], dpool[31]
+    assert before[0] == "F" and after[0] == "L"
+    cps, lics = long_texts(seed)
+
+    def contexts(p):
+        return [[p], [before, p], [p, after]]
+
+    text_paras = ([["F", ["*"], cp, dpool[1][3]] for cp in cps] + [["F", ["*"], "2020 A", l] for l in lics]
+                  + [["L", l] for l in lics])
+    cases = []
+    if group in ("files-hyphen9", "files-other"):
+        for f in long_files(seed, group):
+            for paras in contexts(["F", f, "2020 A", ["GPL-2+", ""]]):
+                cases.append({"part": "doc", "header": minimal, "paras": paras})
+    elif group == "texts":
+        for p in text_paras:
+            for paras in contexts(p):
+                cases.append({"part": "doc", "header": minimal, "paras": paras})
+    else:
+        some_files = [["F", f, "2020 A", ["GPL-2+", ""]] for f in long_files(seed, "files-hyphen9")[70:80]]
+        for h in long_headers(seed):
+            for paras in [[]] + [[p] for p in dpool] + [[p] for p in text_paras] + [[p] for p in some_files]:
+                cases.append({"part": "doc", "header": h, "paras": paras})
+    return cases
+
+
+def long_features(case):
+    """what is long about a document (the non-triviality rule of the long part, and its outcome classes)"""
+    f = set()
+    texts = []
+    h = case["header"]
+    if h["contact"] and len(h["contact"]) >= 5:
+        f.add("contacts>=5")
+    if h["license"]:
+        texts.append(h["license"][1])
+    if h["source"]:
+        texts.append(h["source"])
+    for p in case["paras"]:
+        if p[0] == "F":
+            if len(" ".join(p[1])) > 72:
+                f.add("files>72")
+            if any(len(x) > 72 for x in p[1]):
+                f.add("pattern>72")
+            texts += [p[2], p[3][0], p[3][1]]
+        else:
+            texts += [p[1][0], p[1][1]]
+    for t in texts:
+        lines = t.split("\n")
+        if any(len(l) >= 200 for l in lines):
+            f.add("line>=200")
+        elif any(len(l) > 72 for l in lines):
+            f.add("line>72")
+        if len(lines) >= 30:
+            f.add("lines>=30")
+    return sorted(f)
+
+
+def _doc_long_unit(part, u, seed):
+    cases = long_cases(seed, u["group"])
+    prefixes = set()
+    for case in cases:
+        bad, cls = run_doc_case(case)
+        feats = long_features(case)
+        for n in range(1, len(case["paras"]) + 1):
+            prefixes.add(repr((case["header"], case["paras"][:n])))
+        part.traces += 1
+        part.evaluations += 1
+        part.outcomes["long/%s %s" % (cls, ",".join(feats) or "-")] += 1
+        if feats or _doc_nontrivial(case["paras"]):
+            part.nontrivial += 1
+        for sig, e, o in bad:
+            part.violation(sig, case, e, o, rank=10)
+        part.max_depth = max(part.max_depth, len(case["paras"]))
+    part.states += len(prefixes)
+    part.transitions += len(prefixes)
+    part.extra["long documents"] += len(cases)
+    part.sample(cases[len(cases) // 2])
+    return part
 
 
 # ------------------------------------------------------------------------------------------------ codec sweep
@@ -154,10 +338,13 @@ def units(tier, seed):
     for h in hsel:
         for first in range(len(dpool)):
             out.append({"part": "doc", "pool": dpool, "headers": headers, "hidx": [h], "first": first})
+    out += [{"part": "doc-long", "group": g} for g in LONG_GROUPS]
     return out
 
 
 def unit_cost(u, tier):
+    if u["part"] == "doc-long":
+        return 400 * 600
     if u["part"] == "codec-sweep":
         return len(u["chars"]) * 5 * 12
     if u["part"] == "codec":
@@ -476,6 +663,8 @@ def run_unit(u, tier, seed):
         return _codec_unit(part, u)
     if u["part"] == "codec-sweep":
         return _codec_sweep_unit(part, u)
+    if u["part"] == "doc-long":
+        return _doc_long_unit(part, u, seed)
     return _doc_unit(part, u)
 
 
